@@ -505,19 +505,31 @@ func checkArith(sink *failSink, st *oracleStats, mul bool, a, b, res interface{}
 			sink.add("C11:type-promotion", name+": result of a double operand is not a double", []string{enc(a), enc(b), enc(res)})
 		}
 	case 3:
-		ca, ea, fa, oka := decOf(a)
-		cb, eb, fb, okb := decOf(b)
-		if !oka || !okb {
-			// a double operand: decimal.NewFromFloat, not recomputed here
-			if res != bsonkit.Missing && numRank(res) != 3 {
-				sink.add("C11:type-promotion", name+": result of a Decimal128 operand is not a Decimal128", []string{enc(a), enc(b), enc(res)})
+		// NaN / infinite operands next to a Decimal128: the IEEE 754 table
+		ka, kb := numKindIEEE(a), numKindIEEE(b)
+		if ka.nan || kb.nan || ka.inf || kb.inf {
+			want := ieeeSpecial(ka, kb, mul)
+			rd, isDec := res.(primitive.Decimal128)
+			if isDec {
+				h, l := rd.GetBytes()
+				if h == want && l == 0 {
+					st.Dist[name+":ieee-special"]++
+					return
+				}
+				if !rd.IsNaN() && rd.IsInf() == 0 {
+					sink.add(sigDecNonFinite, name+": a NaN / Infinity operand next to a Decimal128 is treated as 0 (IEEE 754 / MongoDB propagate it)", []string{enc(a), enc(b), enc(res)})
+					return
+				}
 			}
+			sink.add("C11:nonfinite-ieee-result", fmt.Sprintf("%s: expected the Decimal128 special value %#x per IEEE 754 (NaN propagates, Inf-Inf and Inf*0 are NaN, otherwise the signed infinity)", name, want), []string{enc(a), enc(b), enc(res)})
 			return
 		}
-		if !fa || !fb {
-			// MongoDB propagates NaN / Infinity; lungo collapses the operand to 0
-			if rd, ok := res.(primitive.Decimal128); ok && !rd.IsNaN() && rd.IsInf() == 0 {
-				sink.add(sigDecNonFinite, name+": a NaN / Infinity Decimal128 operand is treated as 0 (MongoDB propagates it)", []string{enc(a), enc(b), enc(res)})
+		ca, ea, _, oka := decOf(a)
+		cb, eb, _, okb := decOf(b)
+		if !oka || !okb {
+			// a finite double operand: decimal.NewFromFloat, not recomputed here
+			if res != bsonkit.Missing && numRank(res) != 3 {
+				sink.add("C11:type-promotion", name+": result of a Decimal128 operand is not a Decimal128", []string{enc(a), enc(b), enc(res)})
 			}
 			return
 		}
@@ -568,11 +580,80 @@ func checkArith(sink *failSink, st *oracleStats, mul bool, a, b, res interface{}
 	}
 }
 
+// numKindIEEE: NaN / infinite (with sign) / finite (with sign and zero-ness)
+// of a number of any of the four types, independent of lungo.
+type ieeeKind struct{ nan, inf, neg, zero bool }
+
+func numKindIEEE(v interface{}) ieeeKind {
+	switch x := v.(type) {
+	case int32:
+		return ieeeKind{neg: x < 0, zero: x == 0}
+	case int64:
+		return ieeeKind{neg: x < 0, zero: x == 0}
+	case float64:
+		return ieeeKind{nan: math.IsNaN(x), inf: math.IsInf(x, 0), neg: math.Signbit(x), zero: x == 0}
+	case primitive.Decimal128:
+		h, _ := x.GetBytes()
+		comb := h >> 58 & 31
+		switch {
+		case comb == 31:
+			return ieeeKind{nan: true}
+		case comb == 30:
+			return ieeeKind{inf: true, neg: h>>63 == 1}
+		}
+		bi, _, _ := x.BigInt()
+		return ieeeKind{neg: h>>63 == 1, zero: bi == nil || bi.Sign() == 0}
+	}
+	return ieeeKind{}
+}
+
+// ieeeSpecial: the high word of the canonical Decimal128 NaN / +Infinity /
+// -Infinity that IEEE 754 prescribes for a sum or product with a NaN or
+// infinite operand.
+func ieeeSpecial(a, b ieeeKind, mul bool) uint64 {
+	const nan, pinf, ninf = 0x7C00000000000000, 0x7800000000000000, 0xF800000000000000
+	inf := func(neg bool) uint64 {
+		if neg {
+			return ninf
+		}
+		return pinf
+	}
+	if a.nan || b.nan {
+		return nan
+	}
+	if mul {
+		if a.inf && b.zero || b.inf && a.zero {
+			return nan
+		}
+		return inf(a.neg != b.neg)
+	}
+	switch {
+	case a.inf && b.inf:
+		if a.neg != b.neg {
+			return nan
+		}
+		return inf(a.neg)
+	case a.inf:
+		return inf(a.neg)
+	default:
+		return inf(b.neg)
+	}
+}
+
 func oracleNumeric(r *rng, n int, st *oracleStats) []oracleFailure {
-	st.Rule = "pairs over int32/int64/double/decimal incl. overflow boundaries, non-finite and non-canonical values, through bsonkit.Add/Mul and through $inc/$mul on a field: integer results equal the math/big result, typed int32 iff both operands are int32 and it fits, int64 otherwise, rejected exactly on int64 overflow; decimal results equal the exact rational or are rejected exactly when not representable; a rejected $inc/$mul leaves the field untouched; non-trivial = both operands are numbers"
+	st.Rule = "pairs over int32/int64/double/decimal incl. overflow boundaries, non-finite and non-canonical values, through bsonkit.Add/Mul and through $inc/$mul on a field: integer results equal the math/big result, typed int32 iff both operands are int32 and it fits, int64 otherwise, rejected exactly on int64 overflow; decimal results equal the exact rational or are rejected exactly when not representable; a NaN / infinite operand (decimal or double) next to a Decimal128 gives the canonical Decimal128 special value of the IEEE 754 table; a rejected $inc/$mul leaves the field untouched; non-trivial = both operands are numbers"
 	sink := &failSink{}
 	for i := 0; i < n; i++ {
 		a, b := genNumOperand(r, pick(r, []int{0, 0, 1, 1, 2, 3, 3, 4})), genNumOperand(r, pick(r, []int{0, 0, 1, 1, 2, 3, 3, 4}))
+		if r.chance(1, 6) {
+			a = pick(r, []interface{}{mustDec("NaN"), mustDec("Infinity"), mustDec("-Infinity"), math.NaN(), math.Inf(1), math.Inf(-1)})
+			if _, isDec := a.(primitive.Decimal128); !isDec || r.chance(1, 2) {
+				b = mustDec(pick(r, []string{"0", "-0", "0E+10", "1", "-1", "2.5", "-2.5", "NaN", "Infinity", "-Infinity", "1E+6111"}))
+			}
+			if r.chance(1, 2) {
+				a, b = b, a
+			}
+		}
 		mul := r.chance(1, 2)
 		st.Evaluations++
 		if numRank(a) >= 0 && numRank(b) >= 0 {
